@@ -48,6 +48,8 @@ static zckCtx *mk_ctx(IN_zc *in) {
     zck->work_index_hash.ctx = NULL; zck->work_index_hash_uncomp.ctx = NULL; zck->full_hash.ctx = NULL;
     zck->work_index_hash.type = NULL; zck->work_index_hash_uncomp.type = NULL; zck->full_hash.type = NULL;
     zck->header = NULL;
+    zck->header_digest = NULL;
+    if(in->dict_live) { zck->header_digest = malloc(1); V_ASSUME(zck->header_digest != NULL); }
     if(in->hdr_live) { V_ASSUME(zck->header_size <= 64); zck->header = malloc(zck->header_size); V_ASSUME(zck->header != NULL); }
     for(int i = 0; i < G_NFD; i++) { g_fpos[i] = in->pos0[i]; g_wr_bytes[i] = in->wr0[i]; g_rd_bytes[i] = in->rd0[i]; }
     g_io_failed = in->failed0 != 0; g_hu_hash = NULL;
